@@ -423,6 +423,31 @@ def generate():
                     if isinstance(st, ast.Raise):
                         raises.append((rel, '%s @%d: %s' % (node.name, st.lineno - node.lineno, ast.unparse(st))))
     lines.append('Definition gen_raises : list (string * string) := ' + pairs(raises) + '.')
+    # which functions exist: per module its functions, per class its methods with their signatures (in source order).
+    # A method added to a class (a new dunder, an override of something inherited), removed or re-declared is visible here
+    # even when no translated body changes.
+    defs = []
+    for path in all_py_files():
+        rel = os.path.relpath(path, SRC)
+        tree = parse(path)
+        for node in tree.body:
+            if isinstance(node, ast.FunctionDef):
+                defs.append((rel, '%s(%s)' % (node.name, ast.unparse(node.args))))
+            elif isinstance(node, ast.ClassDef):
+                for m in node.body:
+                    if isinstance(m, (ast.FunctionDef, ast.AsyncFunctionDef, ast.ClassDef)):
+                        sig = ast.unparse(m.args) if not isinstance(m, ast.ClassDef) else 'class'
+                        decs = ''.join('@%s ' % ast.unparse(d) for d in getattr(m, 'decorator_list', []))
+                        defs.append((rel, '%s.%s%s(%s)' % (node.name, decs, m.name, sig)))
+    lines.append('Definition gen_defs : list (string * string) := ' + pairs(defs) + '.')
+    # every import, wherever it stands (what the aliases mf, util, ex, er, pt, acc ... of the translated bodies denote)
+    imports = []
+    for path in all_py_files():
+        rel = os.path.relpath(path, SRC)
+        for node in ast.walk(parse(path)):
+            if isinstance(node, (ast.Import, ast.ImportFrom)):
+                imports.append((rel, ast.unparse(node)))
+    lines.append('Definition gen_imports : list (string * string) := ' + pairs(imports) + '.')
     return '\n'.join(lines) + '\n'
 
 
